@@ -208,7 +208,8 @@ def h_history(X, ops, N):
                     post = _state(f)
                     if post != pre:
                         changed = sorted(x for x in post if post[x] != pre.get(x))
-                        key = "C53/stop/reverts-edits-made-before-replay" if k == "ok-modified" else "C53/stop/not-restored"
+                        edits_lost = k == "ok-modified" and (post["request"]["path"] != pre["request"]["path"] or post["comment"] != pre["comment"])
+                        key = "C53/stop/reverts-edits-made-before-replay" if edits_lost else "C53/stop/not-restored"
                         X.fail(key, f"{hist}: queued {k} flow differs from its pre-submit state after stop in {changed} "
                                     f"(path {pre['request']['path']!r} -> {post['request']['path']!r}, comment {pre['comment']!r} -> {post['comment']!r})")
                 q.clear()
